@@ -350,6 +350,9 @@ PYX_TABLE = {
     'Array_itranspose_fast': {'i in range(axes.shape[0])': ['Array.itranspose|rank=1', 'Array.itranspose|rank=4+', 'Array.itranspose|lay=gaps',
                                                             'Array.itranspose|lay=perm', 'Array.itranspose|nblk=0']},
     'Array_iadd_prefactor_other': {
+        # (present once finding F04.2 is repaired: the argument test of the Python twin)
+        'not isinstance(other, _np_conserved.Array) or not np.isscalar(prefactor)': ([A + 'other=not-an-Array', A + 'pval=nonscalar'], None),
+        'raise ValueError("wrong argument types: ': [A + 'other=not-an-Array'],
         'not optimize(OptimizationFlag.skip_arg_checks)': ([A + 'opt<3'], [A + 'opt=3']),
         'self.rank != other.rank': ([A + 'pre=rank-differs'], None), 'raise ValueError("different rank!")': [A + 'pre=rank-differs'],
         'self_leg, other_leg in zip(self.legs, other.legs)': [A + 'pre=legs-differ', A + 'labels=permuted'],
